@@ -300,7 +300,7 @@ func VerifC18_roundtrip() { c18Roundtrip() }
 
 // encoder -> decoder over a schedule of table-size changes and fields (concrete fields, symbolic
 // sizes): after every field the decoder has emitted exactly that field and both tables agree.
-func c18Schedule(K int) {
+func c18Schedule(K int, withLimit bool) {
 	var out c18Sink
 	e := NewEncoder(&out)
 	var emitted []HeaderField
@@ -311,7 +311,14 @@ func c18Schedule(K int) {
 		if vBool(vName("resize", i)) {
 			v := vU32(vName("size", i))
 			vAssume(v <= 200)
-			e.SetMaxDynamicTableSize(v)
+			if withLimit && vBool(vName("viaLimit", i)) {
+				// the peer announced a new SETTINGS_HEADER_TABLE_SIZE: the decoder allows it at once,
+				// the encoder is told through SetMaxDynamicTableSizeLimit
+				d.SetAllowedMaxDynamicTableSize(v)
+				e.SetMaxDynamicTableSizeLimit(v)
+			} else {
+				e.SetMaxDynamicTableSize(v)
+			}
 			continue
 		}
 		f := fields[nf%len(fields)]
@@ -340,5 +347,6 @@ func c18Schedule(K int) {
 	vReach("schedule-done")
 }
 
-func VerifC18_schedule_quick()    { c18Schedule(6) }
-func VerifC18_schedule_thorough() { c18Schedule(8) }
+func VerifC18_schedule_quick()    { c18Schedule(6, false) }
+func VerifC18_schedule_thorough() { c18Schedule(8, false) }
+func VerifC18_schedule_limit()    { c18Schedule(6, true) }
